@@ -118,7 +118,12 @@ func tornRound(w *W, idx int) {
 	})
 	var targets []uint32
 	for i := 0; i < 22; i++ {
-		targets = append(targets, uint32(rng.Intn(16384)), uint32(16384+rng.Intn(16384)), uint32(32768+rng.Intn(total-32768)))
+		targets = append(targets, uint32(rng.Intn(16383)), uint32(16385+rng.Intn(16382)), uint32(32769+rng.Intn(total-32769)))
+	}
+	// the last row of a block and the first row of the next: written together, in ascending order, by some transactions
+	pairs := [][2]uint32{{16383, 16384}, {32767, 32768}}
+	for _, p := range pairs {
+		targets = append(targets, p[0], p[1])
 	}
 	c.Query(func(txn *column.Txn) error {
 		for _, t := range targets {
@@ -184,6 +189,24 @@ func tornRound(w *W, idx int) {
 				}
 				k := 1 + r.Intn(3)
 				first := r.Intn(len(targets))
+				if r.Intn(6) == 0 {
+					// two adjacent rows on either side of a block boundary, ascending, in one transaction (two block commits)
+					p := pairs[r.Intn(len(pairs))]
+					c.Query(func(txn *column.Txn) error {
+						for _, t := range p {
+							txn.QueryAt(t, func(row column.Row) error {
+								writeTag(row, tag)
+								row.MergeString("t", "="+strconv.FormatInt(tag, 36))
+								return nil
+							})
+						}
+						if rollback {
+							return errAbort
+						}
+						return nil
+					})
+					continue
+				}
 				c.Query(func(txn *column.Txn) error {
 					for j := 0; j < k; j++ {
 						// distinct rows: one merge per cell and transaction (DESIGN.md 3.3)
